@@ -12,10 +12,10 @@ import (
 type Gen struct {
 	r *Run
 	// per-run universe
-	nextUE   uint32
-	nextTEID uint32
-	gnbs     []net.IP
-	flowSeq  int
+	nextUE    uint32
+	nextTEID  uint32
+	gnbs      []net.IP
+	flowSeq   int
 	flowsSeen map[string]bool
 	base8     []*FlowSpec // flows on 11.0.0.0/8..16 (candidates for siblings that differ in the prefix length only)
 	// Avoid: known-finding triggers this run's generators stay away from, so
@@ -124,7 +124,7 @@ func (g *Gen) Flow(wide bool) *FlowSpec {
 		f.RemoteIP, f.RemoteLen = (uint32(0xAC100000)+uint32(g.flowSeq)<<8)&0xFFFFFF00, 24
 		remote = fmt.Sprintf("%s/24", u32IP(f.RemoteIP))
 	case 2:
-		f.RemoteIP, f.RemoteLen = (uint32(0x0C000000) + uint32(g.flowSeq)<<16) & 0xFFFF0000, 16
+		f.RemoteIP, f.RemoteLen = (uint32(0x0C000000)+uint32(g.flowSeq)<<16)&0xFFFF0000, 16
 		remote = fmt.Sprintf("%s/16", u32IP(f.RemoteIP))
 	case 3:
 		l := 8 + g.c(25, "plen") // non-zero network address (envelope)
@@ -180,9 +180,9 @@ func (g *Gen) Flow(wide bool) *FlowSpec {
 type SessShape struct {
 	UEAlloc    bool // UP allocates the UE address
 	TEIDChoose bool
-	NQER       int  // 0..4
-	ExtraPDRs  int  // additional filtered PDR pairs
-	Wide       bool // allow port ranges wider than 100
+	NQER       int       // 0..4
+	ExtraPDRs  int       // additional filtered PDR pairs
+	Wide       bool      // allow port ranges wider than 100
 	BaseSDF    *FlowSpec // filter of the first PDR pair (nil: match-all)
 }
 
